@@ -119,6 +119,7 @@ func (s *Session) verifyFunc(prop string, ct *Contract) *FuncReport {
 	for name := range s.Sigs {
 		enc.declSeen[name] = true
 	}
+	enc.named = ParsePreludeLiterals(s.Prelude)
 	x := &Exec{enc: enc, L: s.L, db: s.DB, sigs: s.Sigs, prelude: s.Prelude, maxPaths: 4096, loopInfo: map[*ssaFunction]*loopInfo{},
 		ghostTy: map[string]ghostInfo{}, prop: prop, singleCoin: map[string]TV{}, lenHint: map[string]int64{}, callerSeqs: map[string]string{}}
 	x.registerGhosts(fn)
@@ -147,7 +148,8 @@ func runVerify(pats []string, verbose bool) int {
 		}
 		reps = append(reps, s.verifyFunc("DBG", s.DB.ByKey[k]))
 	}
-	dir := filepath.Join(verifDir, "out", "smt")
+	dir := filepath.Join(verifDir, "out", "smt", "DBG")
+	os.RemoveAll(dir)
 	os.MkdirAll(dir, 0o755)
 	SolveAll(dir, reps, 10, false)
 	bad := 0
